@@ -483,6 +483,45 @@ def runOps (C : Crypto) (n : Node) (ops : List Op) : Node := ops.foldl (stepOp C
 def initNode (C : Crypto) (cfg : Config) (ts : Nat) : Node :=
   { cfg := cfg, chain := initChain C [] cfg.nodeId ts, wss := [], active := [], nextId := 0 }
 
+/-! ### the validator registry is shared mutable state (`ValidatorRegistry` = a `DashMap` behind
+    `TensorChain::validator_registry()`): a client can remove and re-insert the node's own key between two
+    calls.  With the key absent, `Chain::append` rejects the block `commit` has just built ("unknown proposer")
+    AFTER the workspace's writes were applied to the store — the late failure of a commit that needs no second
+    thread. -/
+
+/-- `ValidatorRegistry::remove(node_id)` -/
+def regRemove : List (List Nat × Nat) → List Nat → List (List Nat × Nat)
+  | [], _ => []
+  | (p, k) :: r, q => if p = q then regRemove r q else (p, k) :: regRemove r q
+
+/-- `chain.validator_registry().remove(chain.node_id())`; `true` = an entry was removed -/
+def unregisterSelf (n : Node) : Node × Bool :=
+  match n.cfg.registry with
+  | some r => ({ n with cfg := { n.cfg with registry := some (regRemove r n.cfg.nodeId) } },
+               (regLookup r n.cfg.nodeId).isSome)
+  | none => (n, false)
+
+/-- `chain.register_validator(chain.identity())` (`DashMap::insert` under the node's own id) -/
+def registerSelf (n : Node) : Node :=
+  match n.cfg.registry with
+  | some r => { n with cfg := { n.cfg with registry := some ((n.cfg.nodeId, n.cfg.key) :: regRemove r n.cfg.nodeId) } }
+  | none => n
+
+/-- client calls including the two registry calls (kept apart from `Op`: the sequential-history invariant
+    is stated for histories in which the node's key stays registered) -/
+inductive OpX where
+  | op (o : Op)
+  | unregister
+  | register
+deriving DecidableEq, Repr
+
+def stepOpX (C : Crypto) (n : Node) : OpX → Node
+  | .op o => stepOp C n o
+  | .unregister => (unregisterSelf n).1
+  | .register => registerSelf n
+
+def runOpsX (C : Crypto) (n : Node) (ops : List OpX) : Node := ops.foldl (stepOpX C) n
+
 /-! ### replica: `TensorStateMachine::apply_block` -/
 
 structure Replica where
